@@ -185,7 +185,8 @@ def with_module_settings_changed(obj):
                 setattr(sp, n, v)
         with warnings.catch_warnings():
             warnings.simplefilter('ignore')
-            for q in (lambda: obj.length(), lambda: obj.ilength(0.3 * obj.length()), lambda: obj.length()):
+            # (only whole lengths: an ilength in between legitimately recomputes everything with its own, explicit accuracy)
+            for q in (lambda: obj.length(), lambda: obj.length(0, 1)):
                 try:
                     q()
                 except Exception:
